@@ -881,6 +881,12 @@ class Summarizer:
                 return [st]
             self.emit('call', self.text(s.value, st), st, s)
             return [st]
+        if isinstance(s, (ast.Assign, ast.AnnAssign)) and isinstance(getattr(s, 'value', None), ast.Call) \
+                and not (isinstance(s.value.func, ast.Name) and (s.value.func.id in self.closures or s.value.func.id in self.helpers)):
+            # the call is evaluated here, whatever becomes of its value
+            cv = self.val(s.value, st)
+            if isinstance(cv, ast.Call):
+                self.emit('eval', canon(cv), st, s, rhs=cv)
         if isinstance(s, ast.Assign):
             states = [st]
             for t in s.targets:
